@@ -15,14 +15,16 @@ def main():
     ap.add_argument("--tier", default="quick")
     ap.add_argument("--only", default=None)
     ap.add_argument("--seedval", default="0")
+    ap.add_argument("--repo", default=os.environ.get("VERIF_REPO", "/repo"),
+                    help="checkout to patch and check (default /repo; a scratch git worktree of /repo lets seed runs go on beside other work)")
     a = ap.parse_args()
     sd = os.path.join(VERIF, "seeded", a.seed) if not os.path.isabs(a.seed) else a.seed
     patch = os.path.join(sd, "patch.diff")
-    st = subprocess.run(["git", "-C", "/repo", "status", "--porcelain"], capture_output=True, text=True).stdout.strip()
+    st = subprocess.run(["git", "-C", a.repo, "status", "--porcelain"], capture_output=True, text=True).stdout.strip()
     if st:
-        print("refusing: /repo working tree is not clean:\n" + st)
+        print("refusing: %s working tree is not clean:\n" % a.repo + st)
         return 2
-    r = subprocess.run(["git", "-C", "/repo", "apply", patch], capture_output=True, text=True)
+    r = subprocess.run(["git", "-C", a.repo, "apply", patch], capture_output=True, text=True)
     if r.returncode != 0:
         print("patch does not apply:", r.stderr)
         return 2
@@ -31,13 +33,13 @@ def main():
         cmd = [sys.executable, "-m", "engine.check", a.prop, "--tier", a.tier]
         if a.only:
             cmd += ["--only", a.only]
-        env = dict(os.environ, VERIF_SEED=a.seedval)
+        env = dict(os.environ, VERIF_SEED=a.seedval, VERIF_REPO=a.repo)
         p = subprocess.run(cmd, cwd=VERIF, capture_output=True, text=True, env=env)
         out = p.stdout
     finally:
-        subprocess.run(["git", "-C", "/repo", "checkout", "--", "."], check=True)
+        subprocess.run(["git", "-C", a.repo, "checkout", "--", "."], check=True)
     viol = [l for l in out.splitlines() if l.startswith("VIOLATION") or l.startswith("  harness ") or l.startswith("NONREPRODUCING")]
-    rec = {"check": a.prop, "tier": a.tier, "only": a.only, "seed": a.seedval, "exit": p.returncode, "wall_s": round(time.time() - t0),
+    rec = {"repo": a.repo, "repo_head": subprocess.run(["git", "-C", a.repo, "rev-parse", "--short", "HEAD"], capture_output=True, text=True).stdout.strip(), "check": a.prop, "tier": a.tier, "only": a.only, "seed": a.seedval, "exit": p.returncode, "wall_s": round(time.time() - t0),
            "lines": viol[:12], "summary": out.strip().splitlines()[-1] if out.strip() else ""}
     dp = os.path.join(sd, "detection.json")
     try:
